@@ -70,7 +70,13 @@ def extract(config="default", repo=REPO, quiet=True):
         if os.path.exists(out):
             shutil.rmtree(out)
         tmp_out = tempfile.mkdtemp(prefix="facts-", dir=CACHE)
-        target = tempfile.mkdtemp(prefix="grass-verif-target-")
+        # Dependencies are compiled once into a warm target directory under the cache; the workspace members' fingerprints
+        # are deleted before every extraction so that cargo re-runs the driver on them (a warm directory would otherwise
+        # replay old results and skip the wrapper).  VERIF_COLD_TARGET=1 uses a throw-away directory instead.
+        cold = bool(os.environ.get("VERIF_COLD_TARGET"))
+        target = tempfile.mkdtemp(prefix="grass-verif-target-") if cold else os.path.join(CACHE, "deps-target-" + config)
+        if not cold:
+            _forget_members(target)
         try:
             cargo_args, extra = CONFIGS[config]
             env = dict(os.environ)
@@ -91,6 +97,11 @@ def extract(config="default", repo=REPO, quiet=True):
                 sys.stderr.write(r.stdout[-4000:])
                 raise SystemExit("fact extraction failed: /repo does not build under `%s`" % " ".join(cmd))
             names = os.listdir(tmp_out)
+            if not any(n.startswith("grass_compiler-") for n in names) and not cold:
+                # the warm directory made cargo skip the driver after all: start from nothing once
+                shutil.rmtree(target, ignore_errors=True)
+                r = subprocess.run(cmd, cwd=repo, env=env, stdout=subprocess.PIPE, stderr=subprocess.STDOUT, text=True)
+                names = os.listdir(tmp_out)
             if not any(n.startswith("grass_compiler-") for n in names):
                 raise SystemExit("fact extraction produced no grass_compiler facts (driver skipped?)")
             # canonical def paths print std items under core::/alloc::; fold them into std:: so rules
@@ -108,7 +119,8 @@ def extract(config="default", repo=REPO, quiet=True):
             open(os.path.join(tmp_out, "DONE"), "w").close()
             os.rename(tmp_out, out)
         finally:
-            shutil.rmtree(target, ignore_errors=True)
+            if cold:
+                shutil.rmtree(target, ignore_errors=True)
             if os.path.exists(tmp_out):
                 shutil.rmtree(tmp_out, ignore_errors=True)
         _prune()
@@ -118,8 +130,17 @@ def extract(config="default", repo=REPO, quiet=True):
         lock.close()
 
 
+def _forget_members(target):
+    for prof in ("debug",):
+        fpd = os.path.join(target, prof, ".fingerprint")
+        if os.path.isdir(fpd):
+            for d in os.listdir(fpd):
+                if d.startswith(("grass", "include_sass")):
+                    shutil.rmtree(os.path.join(fpd, d), ignore_errors=True)
+
+
 def _prune(keep=8):
-    ds = [os.path.join(CACHE, d) for d in os.listdir(CACHE) if os.path.isdir(os.path.join(CACHE, d)) and not d.startswith("facts-")]
+    ds = [os.path.join(CACHE, d) for d in os.listdir(CACHE) if os.path.isdir(os.path.join(CACHE, d)) and not d.startswith(("facts-", "deps-target-"))]
     ds.sort(key=lambda d: os.path.getmtime(d), reverse=True)
     for d in ds[keep:]:
         shutil.rmtree(d, ignore_errors=True)
